@@ -54,24 +54,28 @@ end
 section
 variable {α : Type} [Field α] [LinearOrder α] [IsStrictOrderedRing α] [RealLike α] [NoNaN α]
 
-/-- `update_penalty_weights` in mathematical notation (no NaN, `std::abs/fmin/fmax` = `|·|/min/max`). -/
+/-- `update_penalty_weights` in mathematical notation (no NaN, `std::abs/fmin/fmax` = `|·|/min/max`):
+    every new value is `max(old, min(max_penalty, factor·old))`. -/
 theorem upw_eq (P : ALMParams α) (Δ : α) (first : Bool) (e eo : Vec α) (ne neo : α) (Sg : Vec α) :
     updatePenaltyWeights P Δ first e eo ne neo Sg =
       if ne ≤ P.dual_tolerance then Sg
       else if P.single_penalty_factor = true then
         (if first = true ∨ P.rel_penalty_increase_threshold * neo < ne then
-          Sg.map (fun _ => min P.max_penalty (Δ * vget Sg 0)) else Sg)
+          Sg.map (fun _ => max (vget Sg 0) (min P.max_penalty (max Δ 1 * vget Sg 0))) else Sg)
       else (List.range e.length).map fun i =>
         if first = true ∨ P.rel_penalty_increase_threshold * |vget eo i| < |vget e i| then
-          min P.max_penalty (max (Δ * |vget e i| / ne) 1 * vget Sg i)
+          max (vget Sg i) (min P.max_penalty (max (Δ * |vget e i| / ne) 1 * vget Sg i))
         else vget Sg i := by
   unfold updatePenaltyWeights
   simp only [fmaxS_eq_max, fminS_eq_min, eabs_eq_abs, decide_eq_true_eq, Bool.or_eq_true, gt_iff_lt]
 
-/-- Admissible penalty vector: positive, at most `max_penalty`, uniform in single-factor mode. -/
-def SigOK (P : ALMParams α) (Sg : Vec α) : Prop :=
-  (∀ σ ∈ Sg, 0 < σ ∧ σ ≤ P.max_penalty) ∧
-  (P.single_penalty_factor = true → ∀ σ ∈ Sg, ∀ τ ∈ Sg, σ = τ)
+/-- all components equal in single-factor mode -/
+def Uniform (P : ALMParams α) (Sg : Vec α) : Prop :=
+  P.single_penalty_factor = true → ∀ σ ∈ Sg, ∀ τ ∈ Sg, σ = τ
+/-- all components positive -/
+def AllPos (Sg : Vec α) : Prop := ∀ σ ∈ Sg, 0 < σ
+/-- all components at most `max_penalty` -/
+def AllLe (P : ALMParams α) (Sg : Vec α) : Prop := ∀ σ ∈ Sg, σ ≤ P.max_penalty
 
 theorem upw_length (P : ALMParams α) (Δ : α) (first : Bool) (e eo : Vec α) (ne neo : α) (Sg : Vec α)
     (hl : e.length = Sg.length) :
@@ -85,9 +89,11 @@ theorem upw_vget (P : ALMParams α) (Δ : α) (first : Bool) (e eo : Vec α) (ne
       if ne ≤ P.dual_tolerance then vget Sg j
       else if P.single_penalty_factor = true then
         (if first = true ∨ P.rel_penalty_increase_threshold * neo < ne then
-          (if j < Sg.length then min P.max_penalty (Δ * vget Sg 0) else 0) else vget Sg j)
+          (if j < Sg.length then max (vget Sg 0) (min P.max_penalty (max Δ 1 * vget Sg 0)) else 0)
+         else vget Sg j)
       else if first = true ∨ P.rel_penalty_increase_threshold * |vget eo j| < |vget e j| then
-          (if j < Sg.length then min P.max_penalty (max (Δ * |vget e j| / ne) 1 * vget Sg j) else 0)
+          (if j < Sg.length then
+            max (vget Sg j) (min P.max_penalty (max (Δ * |vget e j| / ne) 1 * vget Sg j)) else 0)
         else vget Sg j := by
   rw [upw_eq]
   by_cases h1 : ne ≤ P.dual_tolerance
@@ -116,13 +122,26 @@ theorem upw_changed (P : ALMParams α) (Δ : α) (first : Bool) (e eo : Vec α) 
   rw [upw_vget _ _ _ _ _ _ _ _ hl] at h
   split_ifs at h with h1 h2 h3 h4 h5 h6 <;> simp_all
 
-theorem SigOK.pos {P : ALMParams α} {Sg : Vec α} (h : SigOK P Sg) (j : Nat) (hj : j < Sg.length) :
-    0 < vget Sg j ∧ vget Sg j ≤ P.max_penalty := h.1 _ (vget_mem Sg j hj)
+/-- The update keeps a uniform Σ uniform (single-factor mode: `setConstant`). -/
+theorem upw_uniform (P : ALMParams α) (Δ : α) (first : Bool) (e eo : Vec α) (ne neo : α) (Sg : Vec α)
+    (h : Uniform P Sg) : Uniform P (updatePenaltyWeights P Δ first e eo ne neo Sg) := by
+  intro h2
+  rw [upw_eq]
+  by_cases h1 : ne ≤ P.dual_tolerance
+  · rw [if_pos h1]; exact h h2
+  rw [if_neg h1, if_pos h2]
+  split_ifs with h3
+  · intro σ hσ τ hτ
+    rw [List.mem_map] at hσ hτ
+    obtain ⟨_, _, rfl⟩ := hσ
+    obtain ⟨_, _, rfl⟩ := hτ
+    rfl
+  · exact h h2
 
-/-- The update preserves admissibility (in single-factor mode it needs `Δ ≥ 1`). -/
-theorem upw_ok (P : ALMParams α) (Δ : α) (first : Bool) (e eo : Vec α) (ne neo : α) (Sg : Vec α)
-    (hl : e.length = Sg.length) (hΔ : P.single_penalty_factor = true → 1 ≤ Δ) (h : SigOK P Sg) :
-    SigOK P (updatePenaltyWeights P Δ first e eo ne neo Sg) := by
+/-- The update keeps positive penalties positive — for every Δ, every `max_penalty`. -/
+theorem upw_pos (P : ALMParams α) (Δ : α) (first : Bool) (e eo : Vec α) (ne neo : α) (Sg : Vec α)
+    (hl : e.length = Sg.length) (h : AllPos Sg) :
+    AllPos (updatePenaltyWeights P Δ first e eo ne neo Sg) := by
   rw [upw_eq]
   by_cases h1 : ne ≤ P.dual_tolerance
   · rw [if_pos h1]; exact h
@@ -130,50 +149,63 @@ theorem upw_ok (P : ALMParams α) (Δ : α) (first : Bool) (e eo : Vec α) (ne n
   by_cases h2 : P.single_penalty_factor = true
   · rw [if_pos h2]
     split_ifs with h3
-    · constructor
-      · intro σ hσ
-        rw [List.mem_map] at hσ
-        obtain ⟨a, ha, rfl⟩ := hσ
-        have hne : 0 < Sg.length := List.length_pos_of_mem ha
-        have h0 := h.pos 0 hne
-        have hΔ1 := hΔ h2
-        refine ⟨lt_min (lt_of_lt_of_le h0.1 h0.2) (mul_pos (by linarith) h0.1), min_le_left _ _⟩
-      · intro _ σ hσ τ hτ
-        rw [List.mem_map] at hσ hτ
-        obtain ⟨_, _, rfl⟩ := hσ
-        obtain ⟨_, _, rfl⟩ := hτ
-        rfl
+    · intro σ hσ
+      rw [List.mem_map] at hσ
+      obtain ⟨a, ha, rfl⟩ := hσ
+      have hne : 0 < Sg.length := List.length_pos_of_mem ha
+      exact lt_of_lt_of_le (h _ (vget_mem Sg 0 hne)) (le_max_left _ _)
     · exact h
   · rw [if_neg h2]
-    refine ⟨?_, fun hs => absurd hs h2⟩
     intro σ hσ
     rw [List.mem_map] at hσ
     obtain ⟨i, hi, rfl⟩ := hσ
     rw [List.mem_range, hl] at hi
-    have hp := h.pos i hi
+    have hp := h _ (vget_mem Sg i hi)
     split_ifs with h3
-    · have : (1:α) ≤ max (Δ * |vget e i| / ne) 1 := le_max_right _ _
-      exact ⟨lt_min (lt_of_lt_of_le hp.1 hp.2) (mul_pos (by linarith) hp.1), min_le_left _ _⟩
+    · exact lt_of_lt_of_le hp (le_max_left _ _)
     · exact hp
 
-/-- The update never decreases a component. -/
+/-- The update never pushes a penalty above `max_penalty` that was not above it before. -/
+theorem upw_le (P : ALMParams α) (Δ : α) (first : Bool) (e eo : Vec α) (ne neo : α) (Sg : Vec α)
+    (hl : e.length = Sg.length) (h : AllLe P Sg) :
+    AllLe P (updatePenaltyWeights P Δ first e eo ne neo Sg) := by
+  rw [upw_eq]
+  by_cases h1 : ne ≤ P.dual_tolerance
+  · rw [if_pos h1]; exact h
+  rw [if_neg h1]
+  by_cases h2 : P.single_penalty_factor = true
+  · rw [if_pos h2]
+    split_ifs with h3
+    · intro σ hσ
+      rw [List.mem_map] at hσ
+      obtain ⟨a, ha, rfl⟩ := hσ
+      have hne : 0 < Sg.length := List.length_pos_of_mem ha
+      exact max_le (h _ (vget_mem Sg 0 hne)) (min_le_left _ _)
+    · exact h
+  · rw [if_neg h2]
+    intro σ hσ
+    rw [List.mem_map] at hσ
+    obtain ⟨i, hi, rfl⟩ := hσ
+    rw [List.mem_range, hl] at hi
+    have hp := h _ (vget_mem Sg i hi)
+    split_ifs with h3
+    · exact max_le hp (min_le_left _ _)
+    · exact hp
+
+/-- The update never decreases a component — for every Δ, every sign, every `max_penalty`
+    (single-factor mode: for a uniform Σ, which `almInit` establishes). -/
 theorem upw_mono (P : ALMParams α) (Δ : α) (first : Bool) (e eo : Vec α) (ne neo : α) (Sg : Vec α)
-    (hl : e.length = Sg.length) (hΔ : P.single_penalty_factor = true → 1 ≤ Δ) (h : SigOK P Sg)
+    (hl : e.length = Sg.length) (h : Uniform P Sg)
     (j : Nat) : vget Sg j ≤ vget (updatePenaltyWeights P Δ first e eo ne neo Sg) j := by
   rw [upw_vget _ _ _ _ _ _ _ _ hl]
   by_cases hj : j < Sg.length
-  · have hp := h.pos j hj
-    simp only [hj, if_true]
+  · simp only [hj, if_true]
     split_ifs with h1 h2 h3 h4
     · exact le_refl _
-    · have h0 := h.pos 0 (by omega)
-      have : vget Sg j = vget Sg 0 := h.2 h2 _ (vget_mem Sg j hj) _ (vget_mem Sg 0 (by omega))
-      have hΔ1 := hΔ h2
-      rw [this]
-      exact le_min h0.2 (by nlinarith)
+    · have : vget Sg j = vget Sg 0 := h h2 _ (vget_mem Sg j hj) _ (vget_mem Sg 0 (by omega))
+      rw [this]; exact le_max_left _ _
     · exact le_refl _
-    · have : (1:α) ≤ max (Δ * |vget e j| / ne) 1 := le_max_right _ _
-      exact le_min hp.2 (by nlinarith)
+    · exact le_max_left _ _
     · exact le_refl _
   · simp only [hj, if_false]
     rw [vget_ge Sg j (not_lt.mp hj)]
@@ -549,4 +581,54 @@ theorem loop_outer (fuel i : Nat) (st : LoopState α A) (x y : Vec α)
   exact h7
 
 end
+/-! ### `minCoeff` / `maxCoeff` (Eigen redux with `std::min` / `std::max`) -/
+section
+variable {α : Type} [Field α] [LinearOrder α] [IsStrictOrderedRing α]
+
+theorem foldl_emin_le (l : List α) (a : α) : l.foldl emin a ≤ a := by
+  induction l generalizing a with
+  | nil => simp
+  | cons x xs ih =>
+    simp only [List.foldl_cons]
+    exact le_trans (ih _) (by rw [emin_eq_min]; exact min_le_left _ _)
+
+theorem foldl_emin_mem_le (l : List α) (a x : α) (hx : x ∈ l) : l.foldl emin a ≤ x := by
+  induction l generalizing a with
+  | nil => cases hx
+  | cons y ys ih =>
+    simp only [List.foldl_cons]
+    rcases List.mem_cons.mp hx with h | h
+    · subst h; exact le_trans (foldl_emin_le _ _) (by rw [emin_eq_min]; exact min_le_right _ _)
+    · exact ih _ h
+
+/-- `v.minCoeff() ≤` every coefficient -/
+theorem redux_emin_le (v : Vec α) (x : α) (hx : x ∈ v) : redux emin 0 v ≤ x := by
+  cases v with
+  | nil => cases hx
+  | cons y ys =>
+    simp only [redux]
+    rcases List.mem_cons.mp hx with h | h
+    · subst h; exact foldl_emin_le _ _
+    · exact foldl_emin_mem_le _ _ _ h
+
+/-- every coefficient `≤ v.maxCoeff()` -/
+theorem le_redux_emax (v : Vec α) (x : α) (hx : x ∈ v) : x ≤ redux emax 0 v := by
+  cases v with
+  | nil => cases hx
+  | cons y ys =>
+    simp only [redux]
+    rcases List.mem_cons.mp hx with h | h
+    · subst h; exact foldl_emax_ge _ _
+    · exact foldl_emax_mem_le _ _ _ h
+
+/-- `v.maxCoeff() ≤ c` when every coefficient is -/
+theorem redux_emax_le (v : Vec α) (c : α) (hv : v ≠ []) (h : ∀ x ∈ v, x ≤ c) : redux emax 0 v ≤ c := by
+  cases v with
+  | nil => exact absurd rfl hv
+  | cons y ys =>
+    simp only [redux]
+    exact foldl_emax_le _ _ _ (h y (List.mem_cons_self ..)) (fun x hx => h x (List.mem_cons_of_mem _ hx))
+
+end
+
 end Alpaqa.Proofs.C07
